@@ -262,7 +262,7 @@ pub fn gen_program(r: &mut ChaChaRng, m: i64, kind: &str, id: String) -> Program
     } else {
         None
     };
-    Program { id, p: side, v, seed: r.gen(), tamper, expect_p: String::new(), expect_v, wide: false, rets: None, vskip: false, bytes: false, btamper: vec![] }
+    Program { id, p: side, v, seed: r.gen(), tamper, expect_p: String::new(), expect_v, wide: false, rets: None, vskip: false, bytes: false, btamper: vec![], roles: false }
 }
 
 /// a random life of a generator table: new, then increases / round trips / clones / views; `need` = the padded gate count the side needs
